@@ -311,6 +311,16 @@ class Runner:
             Fb = np.asarray(Fb.getData() if hasattr(Fb, "getData") else Fb, dtype=float).reshape(-1)
             if float(np.abs(Fb - F.reshape(-1)).max()) > 1e-6 * max(1.0, float(np.abs(F).max())):
                 return ("S2_staticForcesInv(staticForces(F))=F", F.reshape(-1).tolist(), Fb.tolist())
+        # J5: with the joint vector left out, the same queries answer for the stored state (which is thc here)
+        with contextlib.redirect_stdout(io.StringIO()):
+            arm.FK(thc.copy())
+            dflt = [("jacobianEETrans", Je, np.asarray(arm.jacobianEETrans(), dtype=float))]
+            arm.FK(thc.copy())
+            dflt.append(("staticForces", tau, np.asarray(arm.staticForces(Wrench(F.copy())), dtype=float).reshape(-1)))
+            dflt.append(("velocityAtEndEffector", V, np.asarray(arm.velocityAtEndEffector(qd.copy()), dtype=float).reshape(-1)))
+        for name, explicit, default in dflt:
+            if float(np.abs(np.asarray(explicit) - default).max()) > 1e-9 * max(1.0, float(np.abs(explicit).max())):
+                return ("J5_%s()_refers_to_the_stored_state" % name, np.asarray(explicit).tolist(), default.tolist())
         # J4/S4: a query with an explicit joint vector answers for that vector whatever state the arm is in: repeat the
         # queries with the arm parked at a different joint vector
         other = zoo.clamp(sp, np.array([rng.uniform(lo, hi) for lo, hi in zip(np.maximum(sp["mins"], -PI), np.minimum(sp["maxs"], PI))]))
